@@ -22,7 +22,7 @@ FILES = {
     "src/fiber_cond.c": ["C05"],
     "src/fiber_semaphore.c": ["C06"],
     "src/fiber_rwlock.c": ["C07"],
-    "src/fiber_io.c": ["C08"],
+    "src/fiber_io.c": ["C08", "C09"],
     "src/fiber_event_native.c": ["C08", "C09", "C01"],
     "src/fiber_scheduler_wsd.c": ["C10", "C02"],
     "src/work_stealing_deque.c": ["C02"],
